@@ -47,6 +47,12 @@ CHECKS = {
  'C13': dict(engine='E1-enum', technique='bounded-exhaustive enumeration of class programs built three ways from one source (plain, class-decorated, member-decorated) and compared call for call',
    text='376 (quick) class programs - every combination of <= 2 (3 thorough) members out of 11 kinds (plain/class/static methods, properties, functools.wraps closures, unannotated, @no_type_check, string hints naming function-local classes or the class itself) x base class x dataclass x module-level / function-local, and classes nested 1-3 deep with methods at every level - are built plain, with @beartype on the class statement, with beartype(C) after the fact and with @beartype on every member; outcomes of good and bad calls through instance and class, descriptor kinds, names/docs/signatures/attributes, __wrapped__, inherited members, idempotence and the identity cases (also under python -O / -OO in child interpreters) are compared.',
    note='Equivalence is judged on outcome classes, not message text; descriptor objects may be rebuilt around identical functions on re-decoration.', ref='5/C13'),
+ 'C09': dict(engine='E1-enum', technique='bounded-exhaustive enumeration of container hint shapes x fillings x sizes with counting containers; differential comparison of protocol-call vectors across sizes',
+   text='51 container-bearing hint shapes (16 container families, 2-3 level nestings, Optional, fixed tuples with a conforming container beside an offender) are checked with counting containers of sizes 1..64 (1024 thorough) at every level, under 5 fillings, 3 draws and 3 entry points; within each (shape, filling, draw, entry point, verdict) group the complete per-level vector of protocol calls must be identical for all sizes, is_bearable item reads per level are bounded, and 6 kinds of non-collection iterables are never iterated under 7 hints.',
+   note='Counts protocol calls made on instrumented containers, not time; sizes above the largest explored are extrapolation.', ref='5/C09'),
+ 'C10': dict(engine='E1-enum', technique='bounded-exhaustive enumeration of hints x spy subjects x contents x draws x entry points with method-call logs and before/after snapshots',
+   text='68 hints of the iterable / iterator / generator / async / container / collection / mapping families (plain and wrapped in Optional, Union, list, dict, tuple, Iterable) x 22 spy subject kinds (generators, one-shot iterators with and without __len__/__contains__, defaultdicts, counting builtin and abc containers, async iterators, views) x 5 contents x draws x 3 entry points: no subject iterator is advanced or consumed, contents and defaultdict keys are unchanged, only read-only protocol methods are invoked (repr only on rejection), and the wrapped callable receives and returns the object the caller passed.',
+   note='One-shot objects that structurally claim to be Collections are only used with Iterator/Generator hints.', ref='5/C10'),
 }
 NOT_YET = {}
 for i in range(1, 21):
